@@ -535,6 +535,33 @@ theorem keepMeta_spec (st sp a b : Int) :
     keepMeta st sp a b = true ↔ (a ≤ sp ∧ st < b ∧ st < sp) := by
   unfold keepMeta; simp; omega
 
+/-- A time-stamped item is written to the cropped file iff it can crop itself and the cropped item has positive duration,
+    ends at or after the window start and begins before the window end; its time attributes are then the cropped item's. -/
+theorem write_cropped_meta_spec (sliced : Option (Int × Int)) (a b : Int) (r : Int × Int) :
+    writeCroppedMeta sliced a b = some r ↔ sliced = some r ∧ a ≤ r.2 ∧ r.1 < b ∧ r.1 < r.2 := by
+  unfold writeCroppedMeta
+  cases sliced with
+  | none => simp
+  | some s =>
+    obtain ⟨st, sp⟩ := s
+    simp only [Option.some.injEq]
+    by_cases h : keepMeta st sp a b = true
+    · rw [if_pos h]
+      have := (keepMeta_spec st sp a b).mp h
+      constructor
+      · intro e; simp only [Option.some.injEq] at e; subst e; exact ⟨rfl, this⟩
+      · rintro ⟨e, _⟩; rw [e]
+    · rw [if_neg h]
+      constructor
+      · intro e; cases e
+      · rintro ⟨e, h2⟩
+        subst e
+        exact absurd ((keepMeta_spec st sp a b).mpr h2) h
+
+example : writeCroppedMeta (some (10, 20)) 15 30 = some (10, 20) := by decide
+example : writeCroppedMeta (some (10, 10)) 0 30 = none := by decide
+example : writeCroppedMeta none 0 30 = none := by decide
+
 /-! ## (ext) Cropped kymograph / scan items: whole lines inside the window are reproduced unchanged -/
 
 /-- A cut position is *line-safe* when the stream before it is empty or ends with a pixel boundary
@@ -573,6 +600,26 @@ theorem cropped_kymo_lines (s : List C02.Sample) (i j : Nat) (hij : i ≤ j)
   rw [h2, List.take_left', h1, List.drop_left']
   · rfl
   · rfl
+
+/-- The line-safe hypothesis is necessary: a cut in the middle of a pixel (two samples `5`, `6` forming one pixel of 11
+    counts, cut after the first) yields a pixel of 6 counts that the original does not have. -/
+theorem cut_ok_necessary :
+    ¬ CutOk ([((5 : Int), 1), (6, 2)].take 1) ∧
+    C02.pixelsSpecAux 0 (([((5 : Int), 1), (6, 2)].take 2).drop 1) ≠
+      ((C02.pixelsSpecAux 0 [((5 : Int), 1), (6, 2)]).take (C02.pixelsSpecAux 0 ([((5 : Int), 1), (6, 2)].take 2)).length).drop
+        (C02.pixelsSpecAux 0 ([((5 : Int), 1), (6, 2)].take 1)).length := by
+  refine ⟨?_, by decide⟩
+  rintro (h | ⟨init, d, dead, h, hd⟩)
+  · cases h
+  · have hl := congrArg List.getLast? h
+    simp only [List.take_succ_cons, List.take_zero, List.getLast?_singleton] at hl
+    rcases List.eq_nil_or_concat dead with rfl | ⟨dd, x, rfl⟩
+    · simp at hl
+    · have hx := hd x (by simp)
+      simp only [List.concat_eq_append, ← List.append_assoc, List.getLast?_append, List.getLast?_singleton, Option.some_or] at hl
+      simp only [Option.some.injEq] at hl
+      rw [← hl] at hx
+      cases hx
 
 /-- Non-vacuity: two lines of two pixels (k = 1) with one dead sample after each line; cropping to the
     second line (samples 3…5) gives the last two pixels. -/
